@@ -207,12 +207,12 @@ func grainReplayOne(bi int, b gbehaviour, after time.Duration, evw, confw *vtrac
 	}
 	activatedAt := time.Now()
 	s := sched.New()
-	s.Watchdog = 3 * time.Second
+	s.Watchdog = 8 * time.Second
 	s.Control(identity)
 	s.AdoptAt("gt.take", "t")
 	s.AdoptAt("gp.enter", "m")
 	s.DetachAt("gt.end", "gp.end")
-	s.OnlyPoints("gr.receive")
+	s.OnlyPoints("gr.receive", "gr.done")
 	s.Obs = observeGrain(h)
 	h.s.Store(s)
 
@@ -315,7 +315,7 @@ func grainReplayOne(bi int, b gbehaviour, after time.Duration, evw, confw *vtrac
 		return atPoint(thread, want)
 	}
 	senderPoint := func(pc string) string {
-		return map[string]string{"idle": "call", "actenter": "a.enter", "actexit": "a.exit", "recv": "gr.receive", "done": ""}[pc]
+		return map[string]string{"idle": "call", "actenter": "a.enter", "actexit": "a.exit", "recv": "gr.receive", "wait": "gr.done", "done": ""}[pc]
 	}
 	workerPoint := map[string]string{"take": "gt.take", "renter": "r.enter", "rexit": "r.exit", "deenter": "d.enter", "deexit": "d.exit"}
 
@@ -329,17 +329,7 @@ func grainReplayOne(bi int, b gbehaviour, after time.Duration, evw, confw *vtrac
 			t = x.Args[0].(string)
 			arg = t
 			pc := x.Exp.Spc[t]
-			block = pc == "sfwait" || pc == "wait"
-			if x.A == "SRet" {
-				// the reply arrived (or the call timed out): the sender runs on to its next call gate by itself
-				if !collect(t, senderPoint(pc), tellTimeout+2*time.Second) {
-					p, _ := s.Pending(t)
-					drift = fmt.Sprintf("SRet:want=%s:at=%s:done=%v", senderPoint(pc), p.Point, p.Done)
-				}
-				st.Steps++
-				project(x.A, arg)
-				continue
-			}
+			block = pc == "sfwait" // blocked inside the single flight of another sender's activation
 		case "GTake", "GEnter", "GExit", "GDeEnter", "GDeExit":
 			k = int(x.Args[0].(float64))
 			arg = k
@@ -362,16 +352,8 @@ func grainReplayOne(bi int, b gbehaviour, after time.Duration, evw, confw *vtrac
 			if t == "" {
 				drift = x.A + ":no-manager"
 			}
-		case "ZCall", "ZRecv":
+		case "ZCall", "ZRecv", "ZRet":
 			t = "z"
-			block = x.A == "ZRecv"
-		case "ZRet":
-			if !collect("z", "", 8*time.Second) {
-				drift = "ZRet:stop-did-not-return"
-			}
-			st.Steps++
-			project(x.A, arg)
-			continue
 		default:
 			drift = "unknown-action:" + x.A
 		}
@@ -446,11 +428,11 @@ func grainReplayOne(bi int, b gbehaviour, after time.Duration, evw, confw *vtrac
 				p, _ := s.Pending(manager)
 				drift = fmt.Sprintf("%s:after:want=%s:at=%s:done=%v", x.A, want, p.Point, p.Done)
 			}
-		case x.A == "ZCall":
-			want := map[string]string{"recv": "gr.receive", "done": ""}[x.Exp.Zpc]
+		case x.A[0] == 'Z':
+			want := map[string]string{"recv": "gr.receive", "wait": "gr.done", "done": ""}[x.Exp.Zpc]
 			if !collect("z", want, 0) {
 				p, _ := s.Pending("z")
-				drift = fmt.Sprintf("ZCall:after:want=%s:at=%s:done=%v", want, p.Point, p.Done)
+				drift = fmt.Sprintf("%s:after:want=%s:at=%s:done=%v", x.A, want, p.Point, p.Done)
 			}
 		}
 		project(x.A, arg)
